@@ -41,6 +41,10 @@ const (
 	// BlockHeaderSize is the fixed size of each block header
 	BlockHeaderSize = 16
 
+	// MaxNameLength is the longest swamp name a V3 file can carry: the header's
+	// NameLength field is 16 bits wide.
+	MaxNameLength = math.MaxUint16
+
 	// MaxKeyLength is the longest key an entry can carry: the on-disk key
 	// length field is 16 bits wide.
 	MaxKeyLength = math.MaxUint16
@@ -63,6 +67,7 @@ var (
 	ErrEmptyKey          = errors.New("entry key cannot be empty")
 	ErrKeyTooLong        = errors.New("entry key is longer than 65535 bytes")
 	ErrDataTooLarge      = errors.New("entry data is larger than 4 GiB")
+	ErrNameTooLong       = errors.New("swamp name is longer than 65535 bytes")
 	ErrFileClosed        = errors.New("file is closed")
 	ErrCompactionRunning = errors.New("compaction is already running")
 )
